@@ -9,7 +9,7 @@ META = dict(
               "timestamps (jobs anywhere from 2 days before the first possible event to 5 days after the last), every "
               "insertion order of the jobs (solver-chosen permutation), a job scheduled from a handler, a job scheduled "
               "from a job, a raising job, max_concurrent symbolic in 1..2; 6 jobs with symbolic times and no events; 2 jobs whose times are given in UTC / UTC+2 / UTC-3",
-        thorough="adds 4 jobs (every insertion order), 2x2 events + 3 jobs and 1x3 events + 2 jobs with every extra "
+        thorough="adds 4 jobs (every insertion order), 2x2 events + 2 jobs and 1x3 events + 2 jobs with every extra "
                  "(job from handler, job from job, raising job) and max_concurrent 1..3, 7 jobs with symbolic times"),
     stubs=["logging disabled", "uuid.uuid4 deterministic"],
     assumptions=["sources yield events in non-decreasing time order", "a job and an event with the same timestamp may "
@@ -48,8 +48,8 @@ def jobs(tier):
         js += [
             Job("1x2 events, 4 jobs", "scenario", dict(BASE, nsrc=1, nev=2, njobs=4, max_mc=2), split=400,
                 max_paths=3000000, validate_every=2000, sample_every=4000),
-            Job("2x2 events, 3 jobs, all extras", "scenario",
-                dict(BASE, nsrc=2, nev=2, njobs=3, max_mc=3, raising_job=True, job_from_handler=True,
+            Job("2x2 events, 2 jobs, all extras", "scenario",
+                dict(BASE, nsrc=2, nev=2, njobs=2, max_mc=3, raising_job=True, job_from_handler=True,
                      job_from_job=True, job_perms=False), split=400, max_paths=3000000, validate_every=2000,
                 sample_every=4000),
             Job("1x3 events, 2 jobs, all extras", "scenario",
